@@ -1120,6 +1120,8 @@ class C06(Prop):
                             ballot[:i] + [(k, w, r, ["inf", "2", "inf"][salt % 3])] + ballot[i + 1:]))
         if idle:
             out.append(("abstain_failed_never_support", [v for i, v in enumerate(ballot) if i not in idle]))
+        if len(ballot) >= 2 and salt % 4 == 0:           # the order in which the members are polled is irrelevant
+            out.append(("voter_order_irrelevant", list(reversed(ballot))))
         return out
 
     def nontrivial(self, case, obs):
